@@ -19,8 +19,12 @@ from .. import sessionlib as sl
 from .. import market as mk
 
 NAME = "repeat"
+# the execution's determinism is the property under test here: the harness self-check covers the
+# plan generator only, and the event log holds nothing derived from results
+DETERMINISM = "plan"
 PROPS = ("C18",)
-CHUNK = {"quick": 6, "thorough": 10}
+CHUNK = {"quick": 3, "thorough": 8}
+PENDING_FACTOR = 1
 RULE = ("(alpha kind, universe kind, sizing mode, rebalance kind, data route, number of assets, variants executed: "
         "same-process / shared-source history length / cache clears / permuted listing / hash seeds)")
 
@@ -45,7 +49,7 @@ def generate(rng, focus, tier="quick"):
     n_events = 2 * max(1, (cfg["end"] - cfg["start"]) // DAY)
     clears = sorted(set(rng.randrange(0, n_events) for _ in range(rng.randrange(1, 6))))
     return {"world": NAME, "cfg": cfg, "market": market, "others": others, "adhoc": adhoc, "clears": clears,
-            "perm_seed": rng.randrange(1 << 30), "hash_seeds": list(HASH_SEEDS if tier == "thorough" else HASH_SEEDS[:2])}
+            "perm_seed": rng.randrange(1 << 30), "uuid_seed": rng.randrange(1 << 30), "hash_seeds": list(HASH_SEEDS if tier == "thorough" else HASH_SEEDS[:2])}
 
 
 def result_digest(out):
@@ -65,8 +69,8 @@ def result_digest(out):
     return h.hexdigest(), parts
 
 
-def plain_digest(cfg, market):
-    out = sl.run_session(cfg, market, monitors=True)
+def plain_digest(cfg, market, uuid_seed=0):
+    out = sl.run_session(cfg, market, monitors=True, uuid_seed=uuid_seed)
     return result_digest(out)
 
 
@@ -92,7 +96,7 @@ def child_digests(plans, hash_seed):
     try:
         path = os.path.join(d, "plans.json")
         with open(path, "w") as f:
-            f.write(jdump([{"cfg": p["cfg"], "market": p["market"]} for p in plans]))
+            f.write(jdump([{"cfg": p["cfg"], "market": p["market"], "uuid_seed": p.get("uuid_seed", 0)} for p in plans]))
         env = dict(os.environ)
         env["PYTHONHASHSEED"] = str(hash_seed)
         r = subprocess.run([sys.executable, "-m", "qsim.cli", "childdigest", path], cwd=boot.VERIF_DIR, env=env,
@@ -108,10 +112,11 @@ def childdigest_main(path):
     boot.boot()
     with open(path) as f:
         plans = json.load(f)
+    from ..isolate import forked
     out = []
     for p in plans:
-        dg, _ = plain_digest(p["cfg"], p["market"])
-        out.append(dg)
+        # each plan from the pristine post-import state of this interpreter
+        out.append(forked(lambda q: plain_digest(q["cfg"], q["market"], uuid_seed=q.get("uuid_seed", 0) + 99)[0], p))
     print(json.dumps(out))
     return 0
 
@@ -133,13 +138,19 @@ def execute(plan, focus, trace=False):
 
 
 def _execute(plan, focus, trace, child):
-    ctx = Ctx(focus, trace=trace)
+    from ..isolate import forked
+    res, lines = forked(_execute_here, plan, tuple(focus), child)
+    return Ctx.rebuild(focus, res, lines, trace=trace)
+
+
+def _execute_here(plan, focus, child):
+    ctx = Ctx(focus, trace=True)
     try:
         _run(plan, ctx, child)
     except StopRun:
         pass
-    ctx.sim_seconds = max(0, plan["cfg"]["end"] - plan["cfg"]["start"]) * (4 + len(child))
-    return ctx
+    ctx.sim_seconds = max(0, plan["cfg"]["end"] - plan["cfg"]["start"]) * (5 + len(child))
+    return ctx.result(), ctx.trace
 
 
 def _diff(pa, pb):
@@ -161,11 +172,26 @@ def _run(plan, ctx, child):
     P = "C18"
     cfg, market = plan["cfg"], plan["market"]
     ctx.step = 0
-    base, base_parts = plain_digest(cfg, market)
-    ctx.event("base", base)
-    variants = []
+    us = plan.get("uuid_seed", 0)
+    # (e) after sessions over a DIFFERENT market (same symbols, same dates), from a pristine process state:
+    #     hidden state that survives a session must not reach the next one
+    from ..isolate import forked
+
+    def variant_e():
+        m2 = {"adjust": market["adjust"], "assets": {}}
+        for sym, a in market["assets"].items():
+            m2["assets"][sym] = {"rows": [[r[0]] + [(None if x is None else mk.r4(x * 3.0 + 1.0)) for x in r[1:6]] + [r[6]]
+                                          for r in a["rows"]]}
+        sl.run_session(plan["others"][0] if plan["others"] else cfg, m2, monitors=False)
+        sl.run_session(cfg, m2, monitors=False)
+        return plain_digest(cfg, market, uuid_seed=us + 4)
+    d5, p5 = forked(variant_e)
+    ctx.fault("other_market_session_before")
+    base, base_parts = plain_digest(cfg, market, uuid_seed=us)
+    ctx.event("base")
+    variants = [("after_sessions_on_other_market_data", d5, p5)]
     # (a) again in the same process with fresh objects
-    d2, p2 = plain_digest(cfg, market)
+    d2, p2 = plain_digest(cfg, market, uuid_seed=us + 1)     # another stream of order ids
     variants.append(("same_process_again", d2, p2))
     ctx.fault("same_process_again")
     # (b) shared, memoised data source with a history of other sessions and ad-hoc queries + cache clears
@@ -207,7 +233,7 @@ def _run(plan, ctx, child):
                     def __getattr__(self_inner, name):
                         return getattr(inner, name)
                 session.sim_engine = ClearingEngine()
-            out3 = sl.run_session(cfg, market, monitors=True, shared_source=src, hooks=hooks)
+            out3 = sl.run_session(cfg, market, monitors=True, shared_source=src, hooks=hooks, uuid_seed=us + 2)
             d3, p3 = result_digest(out3)
             variants.append(("shared_source_with_history_and_cache_clears", d3, p3))
         # (d) permuted directory listing
@@ -216,7 +242,7 @@ def _run(plan, ctx, child):
         try:
             cfg4 = dict(cfg)
             cfg4["data_via"] = "env" if cfg["data_via"] == "env" else "handler_listdir"
-            out4 = sl.run_session(cfg4, market, monitors=True, dirpath=dirpath)
+            out4 = sl.run_session(cfg4, market, monitors=True, dirpath=dirpath, uuid_seed=us + 3)
             d4, p4 = result_digest(out4)
             variants.append(("listdir_permuted", d4, p4))
             ctx.fault("listdir_permuted")
@@ -224,18 +250,8 @@ def _run(plan, ctx, child):
             dbc.os = real_os
     finally:
         shutil.rmtree(dirpath, ignore_errors=True)
-    # (e) after a session over a DIFFERENT market (same symbols, same dates) in this process
-    m2 = {"adjust": market["adjust"], "assets": {}}
-    for sym, a in market["assets"].items():
-        m2["assets"][sym] = {"rows": [[r[0]] + [(None if x is None else mk.r4(x * 3.0 + 1.0)) for x in r[1:6]] + [r[6]]
-                                      for r in a["rows"]]}
-    sl.run_session(plan["others"][0] if plan["others"] else cfg, m2, monitors=False)
-    sl.run_session(cfg, m2, monitors=False)
-    d5, p5 = plain_digest(cfg, market)
-    variants.append(("after_sessions_on_other_market_data", d5, p5))
-    ctx.fault("other_market_session_before")
     for name, dg, parts in variants:
-        ctx.event("variant", name, dg)
+        ctx.event("variant", name)
         if not ctx.check(P, dg == base, "result_differs:" + name,
                          lambda: {"variant": name, "difference": _diff(base_parts, parts)},
                          sig="result_differs:" + name):
@@ -243,7 +259,7 @@ def _run(plan, ctx, child):
     # (c) fresh interpreters under other hash seeds
     for s, dg in sorted(child.items()):
         ctx.fault("hash_seed")
-        ctx.event("child", s, dg)
+        ctx.event("child", s)
         if not ctx.check(P, dg == base, "result_differs:fresh_interpreter_other_hash_seed",
                          lambda: {"hash_seed": s, "this_process": base, "child": dg,
                                   "alloc_keys": base_parts.get("allocations", [[]])[:1]},
